@@ -721,7 +721,9 @@ func (ls *LState) findLocal(frame *callFrame, no int) string {
 	} else {
 		return ""
 	}
-	if top-frame.LocalBase >= no {
+	if top-frame.LocalBase >= no && no > 0 {
+		// (findlocal in ldebug.c: a number below 1 names nothing; the slots below the first one
+		// belong to the caller)
 		return "(*temporary)"
 	}
 	return ""
